@@ -155,6 +155,15 @@ func c05Simplify(p *an.Prog, r *an.R) {
 		if inc == nil {
 			continue
 		}
+		// the counter of *matching* repositories: incremented where the predicate parameter returned true
+		predParam := an.Param(info, d.Decl, 1)
+		countsMatches := g.GuardedBy(l, func(cond ast.Expr, truth bool) bool {
+			c, ok := ast.Unparen(cond).(*ast.CallExpr)
+			return ok && truth && an.UsesObj(info, c.Fun, predParam)
+		}, nil)
+		if !countsMatches {
+			continue // some other counter (live or tombstoned repositories)
+		}
 		n++
 		guarded := g.GuardedBy(l, func(cond ast.Expr, truth bool) bool {
 			se, isSel := ast.Unparen(cond).(*ast.SelectorExpr)
